@@ -31,7 +31,7 @@ func init() {
 
 func runC14(c *Ctx) {
 	r := c.R
-	r.Rule("R14-tables", "the letter tables of the FEN reader and writer (pieces, colour, castling, files, ranks) are standard and mutually inverse", 12+2+16+8+8+1)
+	r.Rule("R14-tables", "the letter tables of the FEN reader and writer (pieces, colour, castling, files, ranks) are standard and mutually inverse; the readers accept nothing outside their alphabets", 12+12+2+16+8+8+16+8+3)
 	r.Rule("R14-wiring", "Decode returns (position, side from field 2, half-move clock from field 5, full-move number from field 6); Encode prints (board, side, castling, e.p., half-move clock, full-move number) in that order; Engine.Position/Engine.Reset/NewBoard pass the same-typed ints in the right order", 6)
 	r.Rule("R14-scan", "Encode visits the squares in the order A8..H1 with a separator between ranks only; Decode's cursor starts at A8, moves one square per piece letter and n squares per digit, and places each piece on the cursor square", 4)
 	r.Rule("R14-clocks", "the reported half-move clock resets exactly on pawn moves and captures; the full-move number grows by one exactly after Black's move", 9+18)
@@ -60,32 +60,11 @@ func c14Tables(c *Ctx, in *absint.Interp) {
 	}
 	letters := map[string]rune{"Pawn": 'P', "Knight": 'N', "Bishop": 'B', "Rook": 'R', "Queen": 'Q', "King": 'K'}
 
-	parseP := c.fn("R14-tables", "pkg/board/fen", "", "parsePiece")
 	printP := c.fn("R14-tables", "pkg/board/fen", "", "printPiece")
-	if parseP != nil && printP != nil {
-		key := absint.NewSym(parseP.Params[0].Type(), "r")
-		tab := switchTable(in, parseP, []absint.Value{key}, key)
-		parsed := map[string]string{} // rune key -> "colour,piece"
-		for _, e := range tab {
-			if e.und != "" {
-				r.Undecided("R14-tables", "fen.parsePiece", c.pos(parseP.Pos()), "", e.und)
-				return
-			}
-			tp, ok := e.ret.(*absint.Tuple)
-			if !ok || len(tp.E) != 3 {
-				continue
-			}
-			okv, _ := absint.ConstBool(tp.E[2])
-			if e.key == "default" {
-				if okv {
-					r.Fail("R14-tables", "fen.parsePiece rejects unknown letters", c.pos(parseP.Pos()), "", "default arm accepts")
-				}
-				continue
-			}
-			if okv {
-				parsed[e.key] = vstrOf(tp.E[0]) + "," + vstrOf(tp.E[1])
-			}
-		}
+	for _, sp := range alphabetSpecs(c, "R14-tables", false) {
+		checkRuneParser(c, in, "R14-tables", sp)
+	}
+	if printP != nil {
 		for _, col := range []struct {
 			name string
 			v    int64
@@ -101,12 +80,9 @@ func c14Tables(c *Ctx, in *absint.Interp) {
 				if len(outs) == 1 && !outs[0].Undecided() {
 					got, _ = absint.ConstInt(outs[0].Ret)
 				}
-				back := parsed[runeKey(want)]
-				wantBack := fmt.Sprintf("%d,%d", col.v, pv)
-				r.Check(got == int64(want) && back == wantBack, "R14-tables", cons, c.pos(printP.Pos()), "", fmt.Sprintf("printed as %q, standard letter %q; reader maps %q to (%s), expected (%s)", rune(got), want, want, back, wantBack))
+				r.Check(got == int64(want), "R14-tables", cons, c.pos(printP.Pos()), "", fmt.Sprintf("printed as %q, standard letter %q", rune(got), want))
 			}
 		}
-		r.Check(len(parsed) == 12, "R14-tables", "fen.parsePiece accepts exactly the 12 piece letters", c.pos(parseP.Pos()), "", fmt.Sprintf("accepts %d letters", len(parsed)))
 	}
 
 	// colour
@@ -148,20 +124,9 @@ func c14Tables(c *Ctx, in *absint.Interp) {
 		{"File", "ParseFile", []string{"FileA", "FileB", "FileC", "FileD", "FileE", "FileF", "FileG", "FileH"}, "abcdefgh"},
 		{"Rank", "ParseRank", []string{"Rank1", "Rank2", "Rank3", "Rank4", "Rank5", "Rank6", "Rank7", "Rank8"}, "12345678"},
 	} {
-		parse := c.fn("R14-tables", "pkg/board", "", fr.parse)
 		str := c.fn("R14-tables", "pkg/board", fr.typ, "String")
-		if parse == nil || str == nil {
+		if str == nil {
 			continue
-		}
-		key := absint.NewSym(parse.Params[0].Type(), "r")
-		tab := switchTable(in, parse, []absint.Value{key}, key)
-		parsed := map[string]string{}
-		for _, e := range tab {
-			if tp, ok := e.ret.(*absint.Tuple); ok && len(tp.E) == 2 {
-				if okv, _ := absint.ConstBool(tp.E[1]); okv && e.key != "default" {
-					parsed[e.key] = vstrOf(tp.E[0])
-				}
-			}
 		}
 		for i, n := range fr.names {
 			v, _ := constVal(c.P, "pkg/board", n)
@@ -171,8 +136,7 @@ func c14Tables(c *Ctx, in *absint.Interp) {
 				got = vstrOf(outs[0].Ret)
 			}
 			want := fmt.Sprintf("%q", string(fr.letters[i]))
-			back := parsed[runeKey(rune(fr.letters[i]))]
-			r.Check(got == want && back == fmt.Sprint(v), "R14-tables", "board."+fr.typ+" text|"+n, c.pos(str.Pos()), "", fmt.Sprintf("printed as %s, standard %s; reader maps it to %s (expected %d)", got, want, back, v))
+			r.Check(got == want, "R14-tables", "board."+fr.typ+" text|"+n, c.pos(str.Pos()), "", fmt.Sprintf("printed as %s, standard %s", got, want))
 		}
 	}
 	// Square text = file then rank; ParseSquare(f, r)
